@@ -319,10 +319,13 @@ class Model:
     def forward_exit(self, ms, pt, ev):
         fwd = ms.m['states'][pt]['event']
         nev = (fwd, ev[1] if isinstance(ev, tuple) else 0)
+        # both back-end families hand the exit point's event to the OUTERMOST machine (back: set_containing_sm passes the
+        # top-level machine down to every nesting level; backmp11: the root pointer), which dispatches it like any event:
+        # the connected row of the enclosing machine fires, and other regions of outer levels see the event too
         if self.dialect == 'back':
-            self.back_process_event(ms.parent, nev, {'D'})
+            self.back_process_event(self.root, nev, {'D'})
         else:
-            self.mp11_process_event(self.root if False else ms.parent, nev, 'direct')
+            self.mp11_process_event(self.root, nev, 'direct')
 
     def defer_action(self, ms, ev):
         if self.dialect == 'back':
